@@ -109,7 +109,7 @@ func c19Run(ops []nlOp, rep *Report, idx int) (ap.NaturalLanguageValues, []strin
 }
 
 func runC19(seed int64, n int, tier string, outDir string) (*Report, error) {
-	rep := &Report{Rule: "histories of Set/Append/Add/Get over tags {-,en,fr} and texts {a,bb}: exhaustive up to a length bound (2 quick, 4 thorough) plus random histories up to length 14 over a larger alphabet; equality: all ordered pairs of lists without repeated tags over 3 tags x 2 texts (6241 pairs, natively exhaustive; a sample goes through Coq in quick, all in thorough); non-trivial = history contains a Set or Append and a Get / pair of non-empty lists; distinct by canonical term"}
+	rep := &Report{Rule: "histories of Set/Append/Add/Get over tags {-,en,fr} and texts {a,bb,empty}: exhaustive up to a length bound (2 quick, 4 thorough) plus random histories up to length 14 over a larger alphabet; equality: all ordered pairs of lists without repeated tags over 3 tags x 2 texts (6241 pairs, natively exhaustive; a sample goes through Coq in quick, all in thorough); non-trivial = history contains a Set or Append and a Get / pair of non-empty lists; distinct by canonical term"}
 	g := NewGen(seed, "C19")
 	hdr := "From AP.Model Require Import Prelude Vocab Nlv.\n" +
 		"Definition ok (c : list nop * (nl * list (option bytes))) : bool :=\n" +
@@ -117,7 +117,7 @@ func runC19(seed int64, n int, tier string, outDir string) (*Report, error) {
 		"  list_eqb (pair_eqb bytes_eqb bytes_eqb) st st' && list_eqb (option_eqb bytes_eqb) outs outs'.\n"
 	cw := NewCaseWriter(outDir, "Cases_C19_hist", hdr, "list nop * (nl * list (option bytes))")
 	tags := []string{"-", "en", "fr"}
-	vals := []string{"a", "bb"}
+	vals := []string{"a", "bb", ""}
 	var alphabet []nlOp
 	for _, t := range tags {
 		for _, v := range vals {
@@ -169,7 +169,11 @@ func runC19(seed int64, n int, tier string, outDir string) (*Report, error) {
 		ops := make([]nlOp, m)
 		for j := range ops {
 			k := []string{"Set", "Set", "Append", "Add", "Get", "Get"}[g.Intn(6)]
-			ops[j] = nlOp{k, bigTags[g.Intn(len(bigTags))], string(g.Text())}
+			txt := string(g.Text())
+			if g.Chance(1, 6) {
+				txt = "" // an entry whose text is empty is still an entry
+			}
+			ops[j] = nlOp{k, bigTags[g.Intn(len(bigTags))], txt}
 		}
 		emit(ops, fmt.Sprintf("seed=%d index=%d", seed, i), idx)
 		idx++
